@@ -2097,6 +2097,37 @@ def reach_from_cp(f, starts, avoid_exit=(), avoid_enter=(), max_states=20000):
         let required = !only_if || found();   if !required { return .. }
     (the early return is unreachable on the path where `only_if` was false).  Over-approximates like reach_from otherwise."""
     avoid_exit, avoid_enter = set(avoid_exit), set(avoid_enter)
+    # only locals whose value can reach a switch operand are tracked (keeps the number of distinct path states small)
+    rel = getattr(f, '_cp_relevant', None)
+    if rel is None:
+        rel = set()
+        for i in f.reachable():
+            t = f.blocks[i]['t']
+            if t['k'] == 'switch' and op_local(t['o']) is not None:
+                rel.add(op_local(t['o']))
+        changed = True
+        while changed:
+            changed = False
+            for i in f.reachable():
+                b = f.blocks[i]
+                for s in b['s']:
+                    if s['k'] == 'a' and not s['d'][1] and s['d'][0] in rel:
+                        r = s['r']
+                        src = None
+                        if r['k'] == 'use' or (r['k'] == 'un' and r.get('op') == 'Not'):
+                            src = op_local(r['o'])
+                        elif r['k'] == 'discr' and not r['p'][1]:
+                            src = r['p'][0]
+                        if src is not None and src not in rel:
+                            rel.add(src)
+                            changed = True
+                t = b['t']
+                if t['k'] == 'call' and t.get('d') and not t['d'][1] and t['d'][0] in rel and t['f'].get('name') == 'branch' and t.get('args'):
+                    src = op_local(t['args'][0])
+                    if src is not None and src not in rel:
+                        rel.add(src)
+                        changed = True
+        f._cp_relevant = rel
     seen = set()
     out = set()
     work = []
@@ -2137,13 +2168,34 @@ def reach_from_cp(f, starts, avoid_exit=(), avoid_enter=(), max_states=20000):
                 l = op_local(r['o'])
                 if l is not None and l in e and e[l] in (0, 1):
                     val = 1 - e[l]
-            if val is None:
+            elif r['k'] == 'agg' and r.get('ak') == 'adt' and 'vd' in r and r.get('variant'):
+                val = ('var', r['vd'])      # `Err(..)`, `Ok(..)`, `Some(..)`: the variant is known on this path
+            elif r['k'] == 'discr' and not r['p'][1] and isinstance(e.get(r['p'][0]), tuple):
+                val = e[r['p'][0]][1]
+            if val is None or d[0] not in rel:
                 e.pop(d[0], None)
             else:
                 e[d[0]] = val
         t = b['t']
         if t['k'] == 'call' and t.get('d') and not t['d'][1]:
             e.pop(t['d'][0], None)
+            # `x?`: Try::branch maps Ok -> Continue, Err -> Break (Some -> Continue, None -> Break)
+            nm = t['f'].get('name')
+            if nm in ('from_residual', 'from_output') and t['d'][0] in rel:
+                # `?` rebuilds the residual: Err / None (from_output: Ok / Some)
+                ty = f.locals[t['d'][0]]['s']
+                if ty.startswith('std::result::Result'):
+                    e[t['d'][0]] = ('var', 1 if nm == 'from_residual' else 0)
+                elif ty.startswith('std::option::Option'):
+                    e[t['d'][0]] = ('var', 0 if nm == 'from_residual' else 1)
+            if t['f'].get('name') == 'branch' and t.get('args'):
+                l = op_local(t['args'][0])
+                if l is not None and isinstance(e.get(l), tuple):
+                    v = e[l][1]
+                    if f.locals[l]['s'].startswith('std::option::Option'):
+                        v = 1 - v if v in (0, 1) else None
+                    if v is not None:
+                        e[t['d'][0]] = ('var', v)
         succ = list(f.succ[bb])
         if t['k'] == 'switch':
             l = op_local(t['o'])
